@@ -62,6 +62,12 @@ func runTLVWord(b Beh, seed int64) []J {
 			c.SetBytes(tag, v)
 		}()
 		want[tag] = append(want[tag], v...)
+		// the container holds what was set: the caller's buffer is the caller's again after the call (it is reused here)
+		keep := append([]byte{}, v...)
+		for k := range v {
+			v[k] ^= 0xa5
+		}
+		v = keep
 		ser := c.BytesBuffer().Bytes()
 		// the items this set appended, parsed by the reference reader
 		frags := []int{}
